@@ -63,7 +63,7 @@ func init() {
 		Gen:      genC01,
 		New:      func() any { return &C01Case{} },
 		Check:    func(c any) Result { return checkC01(c.(*C01Case)) },
-		Quick:    2500,
+		Quick:    4500,
 		Thorough: 250000,
 	})
 }
